@@ -51,6 +51,8 @@ type c08Plan struct {
 	// with a communication key of their own (user names are not unique across groups). Every node of ours sees the same
 	// messages and must hold the same state for that round - also the node that bears the name.
 	Foreign bool `json:"foreign,omitempty"`
+	// Twins: the first two participants bear names that differ only in the case of their letters
+	Twins bool `json:"twins,omitempty"`
 }
 
 func c08Gen(rt *rapid.T) c08Plan {
@@ -62,7 +64,8 @@ func c08Gen(rt *rapid.T) c08Plan {
 		Ignore:   rapid.SliceOfN(rapid.IntRange(0, 1000), 0, 2).Draw(rt, "ignore"),
 		LateDays: rapid.SampledFrom([]int{0, 0, 0, 1, 8, 60}).Draw(rt, "lateDays"),
 		DevKey:   rapid.SampledFrom([]int{0, 0, 0, 1, 2, nt[0]}).Draw(rt, "devKey"),
-		Foreign:  rapid.IntRange(0, 2).Draw(rt, "foreign") == 0}
+		Foreign:  rapid.IntRange(0, 2).Draw(rt, "foreign") == 0,
+		Twins:    rapid.IntRange(0, 3).Draw(rt, "twins") == 0}
 }
 
 // crossNodeView projects a node's dump of a round to what every node must agree on (time-free, without private deals).
@@ -198,7 +201,11 @@ func c08Run(t *testing.T, st *vstat.Stats, p c08Plan) (v *viol) {
 	synctest.Test(t, func(t *testing.T) {
 		root := tmpRoot("c08-")
 		defer os.RemoveAll(root)
-		w, err := world.New(world.Config{N: p.N, Seed: []byte(fmt.Sprintf("c08|%d|%d", p.N, p.T)), Root: filepath.Join(root, "live")})
+		cfg := world.Config{N: p.N, Seed: []byte(fmt.Sprintf("c08|%d|%d", p.N, p.T)), Root: filepath.Join(root, "live")}
+		if p.Twins {
+			cfg.Names = world.CaseTwinNames(p.N)
+		}
+		w, err := world.New(cfg)
 		if err != nil {
 			v = violf("harness", "%v", err)
 			return
@@ -553,6 +560,44 @@ func c08Run(t *testing.T, st *vstat.Stats, p c08Plan) (v *viol) {
 				return
 			}
 		}
+		// R5: only the messages addressed to the node (broadcasts and those bearing exactly its name) matter
+		{
+			var sub []storage.Message
+			for _, m := range log {
+				if m.RecipientAddr == "" || m.RecipientAddr == w.Names[p.NodeA] {
+					sub = append(sub, m)
+				}
+			}
+			if len(sub) < len(log) {
+				rs, err := newReplayer(w, p.NodeA, sub, root, "own")
+				if err != nil {
+					v = violf("harness", "%v", err)
+					return
+				}
+				err = rs.consume(nil, nil)
+				diff := ""
+				for _, rd := range allRounds {
+					if a, b := sameIdentityView(rs.n, rd), sameIdentityView(rr.n, rd); a != b {
+						diff = fmt.Sprintf("round %s: %s vs %s", clip(rd, 8), clip(a, 300), clip(b, 300))
+						break
+					}
+					if sigStoreView(rs.n, rd) != sigStoreView(rr.n, rd) {
+						diff = fmt.Sprintf("round %s: signature stores differ", clip(rd, 8))
+						break
+					}
+				}
+				rs.close()
+				if err != nil {
+					v = violf("replay-failed", "%v", err)
+					return
+				}
+				if diff != "" {
+					v = violf("messages-for-others-matter", "node %d (%q): the state rebuilt from the %d messages addressed to it differs from the state under the full %d-message log (the rest is addressed to other participants): %s", p.NodeA, w.Names[p.NodeA], len(sub), len(log), diff)
+					return
+				}
+				st.Class("rebuilt-from-own-messages-only")
+			}
+		}
 		// R2 via the real resetState handler with an ignore list: the live node re-reads the log minus the ignored ids
 		var ignoreIDs []string
 		ign := map[string]bool{}
@@ -612,6 +657,9 @@ func c08Run(t *testing.T, st *vstat.Stats, p c08Plan) (v *viol) {
 		}
 		if foreignRound != "" {
 			st.Class("foreign-round-with-a-colliding-user-name")
+		}
+		if p.Twins {
+			st.Class("participants-with-names-equal-up-to-case")
 		}
 		st.ClassN("rejected-messages-in-log", rejected)
 		if p.Decline && p.Second && declined {
